@@ -620,7 +620,7 @@ pub fn build_pool(seed: u64, repo: &str, sz: &PoolSizes, focus: Option<&PoolFocu
     }
     // fixed seeds of the vocabulary: the smallest @-expressions, for every evaluator
     for e in ALL_EV {
-        for t in ["@", "1+@", "@*2", "@+@", "-@", "@²", "abs(@)", "sqrt(@)", "2(@)", "pow(@,2)", "@^@", "1", "2+3"] {
+        for t in ["@", "1+@", "@*2", "@+@", "-@", "@²", "abs(@)", "sqrt(@)", "2(@)", "pow(@,2)", "@^@", "1", "2+3", "3,14", "1,5+@", "@,5", "2,5*2", "1 000", "1_000", "1e3", "0x10", "١٢٣", "½"] {
             add_expr(&mut pool, &mut r, e, t.to_string(), "seed_vocabulary", 4);
         }
     }
